@@ -152,6 +152,7 @@ func Check(r *ev.Run, replay string) {
 		bound, limit = 3, 60000
 	}
 	r.Sharded(len(scs), func(shard, n int) {
+		defer Cleanup() // the worker process exits right after this function
 		for i, sc := range scs {
 			if i%n != shard {
 				continue
